@@ -15,7 +15,7 @@ ROOT = os.path.dirname(os.path.dirname(os.path.abspath(__file__)))
 REPO = os.environ.get("VERIF_REPO", "/repo")
 LEAN = os.path.join(ROOT, "lean")
 BUILD = os.path.join(ROOT, ".build")
-DSMODEL = os.path.join(LEAN, ".lake", "build", "bin", "dsmodel")
+BIN = os.path.join(LEAN, ".lake", "build", "bin")
 NCPU = int(os.environ.get("VERIF_JOBS", str(os.cpu_count() or 8)))
 GUARD = "DATASKETCHES_VERIF"
 
@@ -38,10 +38,15 @@ def sh(cmd, cwd=None, timeout=None, input=None, env=None):
 # ----------------------------------------------------------------------------- stage 0: builds
 
 def translate():
-    """Regenerate lean/DSGen/*.lean from /repo's current headers. Returns (ok, log)."""
+    """Regenerate lean/DSGen/*.lean from /repo's current headers. Returns per-family status {fam: {ok, errors}}."""
     rc, out = sh([sys.executable, os.path.join(ROOT, "tools", "translate.py"), "--repo", REPO,
                   "--out", os.path.join(LEAN, "DSGen")])
-    return rc == 0, out
+    try:
+        st = json.load(open(os.path.join(LEAN, "DSGen", "_status.json")))
+    except Exception as e:
+        st = {}
+    st["_log"] = dict(ok=(rc == 0), errors=[out[-3000:]])
+    return st
 
 
 def lake_build(targets, timeout=3600):
@@ -126,8 +131,8 @@ def run_impl(exe, lines, args=(), timeout=60):
     return run_lines([exe] + list(args), lines, timeout, env=ASAN_ENV)
 
 
-def run_model(family, lines, timeout=120):
-    return run_lines([DSMODEL, family], lines, timeout)
+def run_model(exe, family, lines, timeout=120):
+    return run_lines([os.path.join(BIN, exe)] + ([family] if family else []), lines, timeout)
 
 
 def norm(s):
@@ -342,6 +347,9 @@ class Report:
         self.assumptions = []
         self.nrep = 0
         self.known = [k for k in load_known() if k.get("property") == pid]
+
+    def is_known(self, key):
+        return any(k.get("status") == "open" and k.get("key") == key for k in self.known)
 
     def violation(self, key, header, lines, found_input, what):
         """Register a violation; suppressed into KNOWN-FINDING only for *open* known findings with the same key."""
